@@ -111,7 +111,9 @@ pub fn c01_c08_c16(prop: &str, seed: u64, budget: usize) -> Report {
     let parts: Vec<Report> = cfgs().par_iter().enumerate().map(|(ci, &(m, full, bd, ts))| {
         let mut rep = Report::new();
         let mut r = Rng::new(seed ^ (ci as u64 * 7919));
-        let cfg = cfg_of(bd as u8, 0, 0, full, mc_of(m).unwrap(), TransferCharacteristic::BT1886, ColorPrimaries::BT709);
+        // the property quantifies over the matrix, range and depth only: primaries/transfer tags are arbitrary
+        let pn = CPS[r.below(14) as usize]; let tn = TCS[r.below(19) as usize];
+        let cfg = cfg_of(bd as u8, 0, 0, full, mc_of(m).unwrap(), tn.1, pn.1);
         let max = (1u32 << bd) - 1;
         let codes: Vec<[u32; 3]> = if prop == "C16" { let mid = 1u32 << (bd - 1); (0..=max).map(|y| [y, mid, mid]).collect() }
             else if bd == 8 && budget >= 1 << 24 { (0..(1u32 << 24)).map(|i| [i & 255, (i >> 8) & 255, i >> 16]).collect() }
@@ -123,25 +125,25 @@ pub fn c01_c08_c16(prop: &str, seed: u64, budget: usize) -> Report {
                 for (c, o) in chunk.iter().zip(rgb.iter()) {
                     let e = ref_decode(m, norm(c[0] as f64, bd, full, false), norm(c[1] as f64, bd, full, true), norm(c[2] as f64, bd, full, true));
                     for k in 0..3 { let d = (o[k] as f64 - e[k]).abs(); rep.note("decode abs err", d, 3e-6);
-                        if !(d <= 3e-6) { rep.fail("decoded component differs from H.273", format!("dec {} {} BT709 {} {} {} {} {}", ts, m, full as u8, bd, c[0], c[1], c[2]), format!("{:?}", o), format!("{:?}", e)); } }
+                        if !(d <= 3e-6) { rep.fail("decoded component differs from H.273", format!("dec {} {} {} {} {} {} {} {}", ts, m, pn.0, full as u8, bd, c[0], c[1], c[2]), format!("{:?}", o), format!("{:?}", e)); } }
                 }
             } else if prop == "C08" {
-                let rgbimg = Rgb::new(rgb, chunk.len(), 1, TransferCharacteristic::BT1886, ColorPrimaries::BT709).unwrap();
+                let rgbimg = Rgb::new(rgb, chunk.len(), 1, TransferCharacteristic::BT1886, pn.1).unwrap();
                 let back: Vec<[u32; 3]> = if ts == 1 { codes_of(&Yuv::<u8>::try_from((&rgbimg, cfg)).unwrap()) } else { codes_of(&Yuv::<u16>::try_from((&rgbimg, cfg)).unwrap()) };
                 let k = 1u32 << (bd - 8);
                 for (c, b) in chunk.iter().zip(back.iter()) {
                     let exp = if full { *c } else { [c[0].clamp(16 * k, 235 * k), c[1].clamp(16 * k, 240 * k), c[2].clamp(16 * k, 240 * k)] };
                     let okc = |i: usize| b[i] == exp[i] || (full && i > 0 && c[i] == 0 && b[i] == 1);
-                    if !(okc(0) && okc(1) && okc(2)) { rep.fail("YUV->RGB->YUV round trip is not lossless", format!("rt {} {} BT709 {} {} {} {} {}", ts, m, full as u8, bd, c[0], c[1], c[2]), format!("{:?}", b), format!("{:?}", exp)); }
+                    if !(okc(0) && okc(1) && okc(2)) { rep.fail("YUV->RGB->YUV round trip is not lossless", format!("rt {} {} {} {} {} {} {} {}", ts, m, pn.0, full as u8, bd, c[0], c[1], c[2]), format!("{:?}", b), format!("{:?}", exp)); }
                 }
             } else {
                 let k = 1u32 << (bd - 8);
                 for (c, o) in chunk.iter().zip(rgb.iter()) {
                     let sp = (o[0].max(o[1]).max(o[2]) - o[0].min(o[1]).min(o[2])) as f64; rep.note("grey spread", sp, 5e-7);
-                    if !(sp <= 5e-7) { rep.fail("neutral chroma does not decode to R=G=B", format!("dec {} {} BT709 {} {} {} {} {}", ts, m, full as u8, bd, c[0], c[1], c[2]), format!("{:?}", o), "spread<=5e-7".into()); }
+                    if !(sp <= 5e-7) { rep.fail("neutral chroma does not decode to R=G=B", format!("dec {} {} {} {} {} {} {} {}", ts, m, pn.0, full as u8, bd, c[0], c[1], c[2]), format!("{:?}", o), "spread<=5e-7".into()); }
                     let black = if full { 0 } else { 16 * k }; let white = if full { max } else { 235 * k };
-                    if c[0] == black && !(o[0] == 0.0 && o[1] == 0.0 && o[2] == 0.0) { rep.fail("nominal black is not exactly 0", format!("dec {} {} BT709 {} {} {} {} {}", ts, m, full as u8, bd, c[0], c[1], c[2]), format!("{:?}", o), "0".into()); }
-                    if c[0] == white { for v in o { let d = (*v as f64 - 1.0).abs(); rep.note("white err", d, 1e-6); if !(d <= 1e-6) { rep.fail("nominal white is not 1 within 1e-6", format!("dec {} {} BT709 {} {} {} {} {}", ts, m, full as u8, bd, c[0], c[1], c[2]), format!("{:?}", o), "1".into()); } } }
+                    if c[0] == black && !(o[0] == 0.0 && o[1] == 0.0 && o[2] == 0.0) { rep.fail("nominal black is not exactly 0", format!("dec {} {} {} {} {} {} {} {}", ts, m, pn.0, full as u8, bd, c[0], c[1], c[2]), format!("{:?}", o), "0".into()); }
+                    if c[0] == white { for v in o { let d = (*v as f64 - 1.0).abs(); rep.note("white err", d, 1e-6); if !(d <= 1e-6) { rep.fail("nominal white is not 1 within 1e-6", format!("dec {} {} {} {} {} {} {} {}", ts, m, pn.0, full as u8, bd, c[0], c[1], c[2]), format!("{:?}", o), "1".into()); } } }
                 }
             }
         }
